@@ -29,6 +29,9 @@ def jobs(tier, seed):
     for L in ([6, 7, 8, 9, 14, 100, 153, 154, 155, 156, 449, 450, 451, 452, 500] if tier == 'quick' else list(range(6, 40)) + list(range(140, 165)) + list(range(440, 460)) + [500, 512]):
         for dver in (0, 1):
             out.append(('trxd.forward.len=%d.peer-v%d' % (L, dver), 'h_trxd_fwd', dict(L=L, dver=dver)))
+    for L in (range(0, 16) if tier == 'quick' else range(0, 40)):
+        for cls in ('RxMsg', 'TxMsg'):
+            out.append(('sniffed.%s.len=%d' % (cls, L), 'h_parse_only', dict(cls=cls, L=L)))
     kmax = 4 if tier == 'thorough' else 3
     for verb in INT_VERBS:
         for k in range(0, kmax + 1):
@@ -112,6 +115,19 @@ def h_trxd_fwd(ctx, L, dver):
         ctx.check('queue-drained', len(trx._tx_queue) == 0, n=len(trx._tx_queue))
         ctx.check('peer:at-most-one-datagram', len(dst.data_if.sock.sent) <= 1, n=len(dst.data_if.sock.sent))
         ctx.check('nothing-back-to-sender', len(trx.data_if.sock.sent) == 0)
+
+
+def h_parse_only(ctx, cls, L):
+    """what trx_sniff and the capture reader do with octets they did not produce: Msg.parse_msg() on an arbitrary datagram
+    either succeeds or raises ValueError - the only exception those tools handle"""
+    T = env.load(ctx, 'data_msg')
+    o = ctx.ints('o', L, 0, 255)
+    with env.symbolic(ctx), ctx.no_raise('parse_msg:only-ValueError', allowed=(ValueError,)):
+        try:
+            getattr(T.data_msg, cls)().parse_msg(mk_bytearray(ctx, o))
+        except ValueError:
+            pass
+    x = ctx.int('dummy', 0, 1); ctx.check('dummy', x >= 0)
 
 
 def mk_text(ctx, prefix, k, nul, name='c'):
